@@ -55,6 +55,24 @@ def showEV (f : α → String) : Except Err (EngVal α) → String
   | .ok e => s!"ok {f e.value} {hexLatin e.uom}"
   | .error e => showErr e
 
+/-- one operation of an EngVal history: `ia:<bits>` `is:` `im:` `id:` (reals), `iaE:<uom>:<bits>` `isE:` `imE:` `idE:` (EngVal operand),
+`cv:<uom>`, `sv:<bits>`, `su:<uom>`, `ob` -/
+def parseOp (s : String) : Option (EngOp Float) :=
+  match s.splitOn ":" with
+  | ["ia", b] => (parseF b).map .iaddReal
+  | ["is", b] => (parseF b).map .isubReal
+  | ["im", b] => (parseF b).map .imulReal
+  | ["id", b] => (parseF b).map .idivReal
+  | ["iaE", u, b] => (latinOfHex u).bind fun u => (parseF b).map fun v => .iaddEng ⟨v, u⟩
+  | ["isE", u, b] => (latinOfHex u).bind fun u => (parseF b).map fun v => .isubEng ⟨v, u⟩
+  | ["imE", u, b] => (latinOfHex u).bind fun u => (parseF b).map fun v => .imulEng ⟨v, u⟩
+  | ["idE", u, b] => (latinOfHex u).bind fun u => (parseF b).map fun v => .idivEng ⟨v, u⟩
+  | ["cv", u] => (latinOfHex u).map .convert
+  | ["sv", b] => (parseF b).map .setValue
+  | ["su", u] => (latinOfHex u).map .setUom
+  | ["ob"] => some .observe
+  | _ => none
+
 def step (line : String) : String :=
   match line.splitOn " " with
   | ["ocount"] => s!"{TD.Gen.C17Osdd.rowCount} {osddRows.size}"
@@ -137,6 +155,11 @@ def step (line : String) : String :=
   | ["enew", u1, u2, v] =>
     match latinOfHex u1, latinOfHex u2, parseF v with
     | some u1, some u2, some v => showEV fbits (EngVal.newEngValInUnits lisTableF ⟨v, u1⟩ u2)
+    | _, _, _ => "bad-op"
+  | ["ehist", u0, v0, ops] =>
+    match latinOfHex u0, parseF v0, (ops.splitOn ";").mapM parseOp with
+    | some u0, some v0, some ops =>
+      ";".intercalate ((EngVal.trace lisTableF ⟨v0, u0⟩ ops).map (fun e => s!"{fbits e.value}:{hexLatin e.uom}"))
     | _, _, _ => "bad-op"
   | _ => "bad-op"
 
